@@ -1253,3 +1253,141 @@ Proof.
   rewrite subN_app_l by (rewrite blocks_bytes_lenN by assumption; lia).
   apply blocks_bytes_nth; assumption.
 Qed.
+
+
+(* ================= I. the acceptance condition as a bullet list over the input bytes ================= *)
+
+Definition pwb_wf (macs : list (list N)) (l : list N) : Prop :=
+  56 <= lenN l /\                                                      (* header + end marker present *)
+  nthN l 0 = 2 /\                                                      (* version 2 *)
+  65 <= nthN l 1 <= 68 /\                                              (* chip 'A'..'D' *)
+  nthN l 2 = 0 /\                                                      (* compression 0 *)
+  (nthN l 3 = 0 \/ nthN l 3 = 1 \/ nthN l 3 = 3) /\                    (* trigger source 0/1/3 *)
+  mac_known macs (subN l 4 6) = true /\                                (* known MAC *)
+  subN l 18 2 = [0; 0] /\                                              (* zero bytes 18-19 *)
+  le_val (subN l 20 2) <= 511 /\                                       (* last SCA cell *)
+  le_val (subN l 22 2) <= 511 /\                                       (* requested samples *)
+  nthN l 33 < 128 /\ nthN l 43 < 128 /\                                (* bit 79 clear in both masks *)
+  let req := le_val (subN l 22 2) in
+  let sent := mask_chan_list (le_val (subN l 24 10)) in
+  lenN l = 56 + bpc_of req * lenN sent /\                              (* no bytes missing or left over *)
+  (forall k c, nth_error sent k = Some c ->                            (* one block per sent channel, ascending *)
+     let o := 52 + bpc_of req * N.of_nat k in
+     le_val (subN l o 2) = chan_readout c /\                           (*   that channel's readout index *)
+     le_val (subN l (o + 2) 2) = req /\                                (*   the requested sample count *)
+     (req mod 2 <> 0 -> subN l (o + 4 + 2 * req) 2 = [0; 0])) /\       (*   zero padding iff odd *)
+  subN l (lenN l - 4) 4 = [204; 204; 204; 204].                        (* end marker *)
+
+Lemma readout_chan_iff v c : chan_valid c = true -> (readout_chan v = Some c <-> v = chan_readout c).
+Proof.
+  intros Hc. split.
+  - intros H. apply readout_fwd in H. symmetry. apply H.
+  - intros ->. apply readout_bwd. assumption.
+Qed.
+
+Lemma blocks_pure_iff req : forall cs d, Forall (fun c => chan_valid c = true) cs ->
+  (blocks_pure req (bpc_of req) d cs = true <->
+   forall k c, nth_error cs k = Some c ->
+     le_val (subN d (bpc_of req * N.of_nat k) 2) = chan_readout c /\
+     le_val (subN d (bpc_of req * N.of_nat k + 2) 2) = req /\
+     (req mod 2 <> 0 -> subN d (bpc_of req * N.of_nat k + (4 + 2 * req)) 2 = [0; 0])).
+Proof.
+  set (bpc := bpc_of req).
+  induction cs as [|c0 ct IH]; intros d Hv.
+  - cbn [blocks_pure]. split; [intros _ k c H; destruct k; discriminate|reflexivity].
+  - inversion Hv as [|? ? Hc0 Hvt]; subst. cbn [blocks_pure]. rewrite !andb_true_iff. rewrite (IH (dropN bpc d) Hvt).
+    split.
+    + intros [[[H1 H2] H3] H4] k c Hk. destruct k as [|k]; cbn [nth_error] in Hk.
+      * inversion Hk; subst. change (N.of_nat 0) with 0. rewrite N.mul_0_r, !N.add_0_l.
+        destruct (readout_chan (le_val (subN d 0 2))) as [fc|] eqn:Er; [|discriminate].
+        apply chan_eqb_eq in H1. subst fc. apply readout_fwd in Er.
+        split; [symmetry; apply Er|]. split; [apply N.eqb_eq; assumption|].
+        intros Od. destruct (N.eqb_spec (req mod 2) 0); [contradiction|]. cbn [orb] in H3. apply leqb_eq. assumption.
+      * specialize (H4 k c Hk). rewrite !subN_dropN in H4. rewrite Nat2N.inj_succ.
+        replace (bpc * N.succ (N.of_nat k)) with (bpc + bpc * N.of_nat k) by lia.
+        replace (bpc + bpc * N.of_nat k + 2) with (bpc + (bpc * N.of_nat k + 2)) by lia.
+        replace (bpc + bpc * N.of_nat k + (4 + 2 * req)) with (bpc + (bpc * N.of_nat k + (4 + 2 * req))) by lia.
+        exact H4.
+    + intros H. pose proof (H 0%nat c0 eq_refl) as (A1 & A2 & A3).
+      change (N.of_nat 0) with 0 in *. rewrite N.mul_0_r, !N.add_0_l in *.
+      split; [split; [split|]|].
+      * rewrite (proj2 (readout_chan_iff _ c0 Hc0) A1). apply chan_eqb_refl.
+      * apply N.eqb_eq. assumption.
+      * destruct (N.eqb_spec (req mod 2) 0); [reflexivity|]. cbn [orb]. rewrite A3 by assumption. reflexivity.
+      * intros k c Hk. specialize (H (S k) c Hk). rewrite !subN_dropN. rewrite Nat2N.inj_succ in H.
+        replace (bpc * N.succ (N.of_nat k)) with (bpc + bpc * N.of_nat k) in H by lia.
+        replace (bpc + bpc * N.of_nat k + 2) with (bpc + (bpc * N.of_nat k + 2)) in H by lia.
+        replace (bpc + bpc * N.of_nat k + (4 + 2 * req)) with (bpc + (bpc * N.of_nat k + (4 + 2 * req))) in H by lia.
+        exact H.
+Qed.
+
+Lemma wf_dir1 macs m l : bytes l -> (exists f, pwb_decode macs m l = Ok f) -> pwb_wf macs l.
+Proof.
+  intros Hb. rewrite pwb_decode_pure by assumption. unfold pwb_wf. cbv zeta.
+  pose proof (mask_chan_list_valid (le_val (subN l 24 10))) as Vs.
+  remember (mask_chan_list (le_val (subN l 24 10))) as sent eqn:Esent.
+  set (req := le_val (subN l 22 2)). set (bpc := bpc_of req).
+  intros [f H]. revert H. unfold pwb_pure. cbv zeta. rewrite <- Esent.
+    destruct (N.ltb_spec (lenN l) 56) as [L56|L56]; [discriminate|].
+    destruct (N.eqb_spec (nthN l 0) 2) as [B0|B0]; cbn [negb]; [|discriminate].
+    destruct (after_of_char (nthN l 1)) as [chip|] eqn:Ech; [|discriminate].
+    destruct (N.eqb_spec (nthN l 2) 0) as [B2|B2]; cbn [negb]; [|discriminate].
+    destruct (trigger_of (nthN l 3)) as [trig|] eqn:Etr; [|discriminate].
+    destruct (mac_known macs (subN l 4 6)) eqn:Emac; cbn [negb]; [|discriminate].
+    destruct (list_eqb (subN l 18 2) [0; 0]) eqn:Ez; cbn [negb]; [|discriminate]. apply leqb_eq in Ez.
+    destruct (N.ltb_spec 511 (le_val (subN l 20 2))) as [Hlast|Hlast]; [discriminate|].
+    destruct (N.ltb_spec 511 (le_val (subN l 22 2))) as [Hreq|Hreq]; [discriminate|].
+    destruct (N.leb_spec 128 (nthN l 33)) as [H33|H33]; [discriminate|].
+    destruct (N.leb_spec 128 (nthN l 43)) as [H43|H43]; [discriminate|].
+    fold req bpc.
+    destruct (N.eqb_spec (bpc * lenN sent + 4) (lenN (dropN 52 l))) as [El|El]; cbn [negb]; [|discriminate].
+    destruct (blocks_pure req bpc (dropN 52 l) sent) eqn:Ebl; cbn [negb]; [|discriminate].
+    destruct (list_eqb (subN (dropN 52 l) (lenN (dropN 52 l) - 4) 4) [204; 204; 204; 204]) eqn:Emk; [|discriminate].
+    apply leqb_eq in Emk. intros _.
+    apply after_of_char_spec in Ech. apply trigger_of_spec in Etr.
+    rewrite dropN_length in El, Emk. rewrite subN_dropN in Emk.
+    replace (52 + (lenN l - 52 - 4)) with (lenN l - 4) in Emk by lia.
+    repeat match goal with |- _ /\ _ => split end; try assumption; try lia.
+    intros k c Hk.
+    destruct (proj1 (blocks_pure_iff req sent (dropN 52 l) Vs) Ebl k c Hk) as (A1 & A2 & A3). fold bpc in A1, A2, A3.
+    rewrite !subN_dropN in A1, A2, A3.
+    replace (52 + (bpc * N.of_nat k + 2)) with (52 + bpc * N.of_nat k + 2) in A2 by lia.
+    replace (52 + (bpc * N.of_nat k + (4 + 2 * req))) with (52 + bpc * N.of_nat k + 4 + 2 * req) in A3 by lia.
+    repeat split; assumption.
+Qed.
+
+Lemma wf_dir2 macs m l : bytes l -> pwb_wf macs l -> (exists f, pwb_decode macs m l = Ok f).
+Proof.
+  intros Hb. rewrite pwb_decode_pure by assumption. unfold pwb_wf. cbv zeta.
+  pose proof (mask_chan_list_valid (le_val (subN l 24 10))) as Vs.
+  remember (mask_chan_list (le_val (subN l 24 10))) as sent eqn:Esent.
+  set (req := le_val (subN l 22 2)). set (bpc := bpc_of req).
+  intros (L56 & B0 & B1 & B2 & B3 & Emac & Ez & Hlast & Hreq & H33 & H43 & El & Hblk & Emk).
+    assert (Hchip : exists chip, after_of_char (nthN l 1) = Some chip).
+    { assert (nthN l 1 = 65 \/ nthN l 1 = 66 \/ nthN l 1 = 67 \/ nthN l 1 = 68) as [E|[E|[E|E]]] by lia;
+        rewrite E; eexists; reflexivity. }
+    assert (Htrig : exists trig, trigger_of (nthN l 3) = Some trig).
+    { destruct B3 as [E|[E|E]]; rewrite E; eexists; reflexivity. }
+    destruct Hchip as [chip Hchip]. destruct Htrig as [trig Htrig].
+    eexists. unfold pwb_pure. cbv zeta. rewrite <- Esent. rewrite Hchip, Htrig, B0, B2, Emac, Ez.
+    replace (lenN l <? 56) with false by lia.
+    fold req bpc.
+    replace (511 <? le_val (subN l 20 2)) with false by lia.
+    replace (511 <? req) with false by (unfold req; lia).
+    replace (128 <=? nthN l 33) with false by lia.
+    replace (128 <=? nthN l 43) with false by lia.
+    rewrite dropN_length.
+    replace (bpc * lenN sent + 4 =? lenN l - 52) with true by lia.
+    assert (Ebl : blocks_pure req bpc (dropN 52 l) sent = true).
+    { apply blocks_pure_iff; [assumption|]. fold bpc. intros k c Hk. destruct (Hblk k c Hk) as (A1 & A2 & A3).
+      rewrite !subN_dropN.
+      replace (52 + (bpc * N.of_nat k + 2)) with (52 + bpc * N.of_nat k + 2) by lia.
+      replace (52 + (bpc * N.of_nat k + (4 + 2 * req))) with (52 + bpc * N.of_nat k + 4 + 2 * req) by lia.
+      repeat split; assumption. }
+    rewrite Ebl. rewrite subN_dropN. replace (52 + (lenN l - 52 - 4)) with (lenN l - 4) by lia.
+    rewrite Emk. rewrite !N.eqb_refl. reflexivity.
+Qed.
+
+Theorem pwb_accept_iff_wf_lemma macs m l : bytes l ->
+  ((exists f, pwb_decode macs m l = Ok f) <-> pwb_wf macs l).
+Proof. intros Hb. split; [apply wf_dir1|apply wf_dir2]; assumption. Qed.
